@@ -551,6 +551,75 @@ def oracle_integer(ctx):
             integer_record_checks(ctx, method, Y, Yr, Z, Zr, fs, n, m, case)
 
 
+def welch_long_check(ctx, Y, Yr, fs, n, m, case):
+    """'per' on a long record: Welch's average runs over ALL segments with equal weights (independent NumPy Welch, lines >= 2, 1e-9),
+    and the integral over frequency is the Hann-weighted mean square over all segments."""
+    with Guard(ctx, "per", case):
+        f, S = sd_est(Y, Yr, 1.0 / fs, n, "per", m / n)
+        W = welch_independent(Y, Yr, fs, n, m)
+        if S.shape != W.shape:
+            ofail(ctx, "per", "shape", "Sy has shape %s, expected %s" % (S.shape, W.shape), case)
+            return
+        dev = relerr(S[:, :, 2:], W[:, :, 2:])
+        if dev > 1e-9:
+            ofail(ctx, "per", "welch-long", "record of %d segments: differs from Welch's average over all segments (lines >= 2) by %.3g" % (case["K"], dev), case)
+            return
+        _, Sd = sd_est(Y[:1], Y[:1], 1.0 / fs, n, "per", m / n)
+        integ, ms = float(np.sum(Sd[0, 0].real) * fs / n), window_weighted_ms(np.asarray(Y[0], float), n, m)
+        if abs(integ - ms) > 1e-9 * ms:
+            ofail(ctx, "per", "integral-long", "record of %d segments: sum_k Sy[0][0][k]*fs/nxseg = %.12g, Hann-weighted mean square over all segments %.12g"
+                  % (case["K"], integ, ms), case)
+
+
+def oracle_welch_long(ctx):
+    rng = ctx.np_rng
+    for path in sorted(glob.glob(os.path.join(VERIF, "corpus", "C13", "*.json"))):
+        c = json.load(open(path))
+        if c.get("kind") == "welch-long":
+            ctx.count(dict(kind="corpus-welch-long", file=os.path.basename(path)))
+            welch_long_check(ctx, np.array(c["Y"], float), np.array(c["Yref"], float), c["fs"], c["n"], c["noverlap"], dict(c, corpus=os.path.basename(path)))
+    Ks = [129, 130, 200, 257, 300, 555, 1000, 128, 256] if ctx.quick() else [129, 130, 131, 200, 255, 257, 300, 385, 555, 640, 1000, 1537, 2500, 128, 256, 384]
+    for K in Ks:
+        for rep in range(ctx.n(1, 2)):
+            n = int(rng.choice([16, 32, 50, 25, 64]))
+            m = [0, n // 4, n // 2, (3 * n) // 4][int(rng.integers(4))]
+            if exact_pov(n, m) is None:
+                m = 0
+            nall, nref = int(rng.integers(1, 4)), int(rng.integers(1, 3))
+            fs = float(rng.choice([100.0, 12.5, 51.2, 1.0]))
+            N = m + K * (n - m) + int(rng.integers(0, n - m))
+            Y = rng.standard_normal((nall, N)) * rng.uniform(0.2, 5, (nall, 1)) + rng.uniform(-1, 1, (nall, 1))
+            same = rep == 0 and K % 2 == 1
+            Yr = Y[:min(nref, nall)] if same else rng.standard_normal((nref, N)) + 0.5 * Y[:1]
+            case = dict(kind="welch-long", n=n, noverlap=m, K=K, N=N, fs=fs, nall=nall, nref=int(Yr.shape[0]), same_ref=same,
+                        Y=Y[:, :64].tolist(), truncated=True, data_note="ctx.np_rng stream")
+            ctx.count(dict(kind="welch-long", n=n, m=m, K=K, N=N, fs=fs, nall=nall, d=float(Y[0, 0])))
+            ctx.hist("welch_long_segments", K)
+            welch_long_check(ctx, Y, Yr, fs, n, m, case)
+    # class level: one long record through FDD (result.Sy against the independent Welch estimate, not against SD_est)
+    from pyoma2.algorithms import FDD
+    from pyoma2.setup import SingleSetup
+    for K, n, m, fs in ([(300, 32, 16, 51.2)] if ctx.quick() else [(300, 32, 16, 51.2), (129, 16, 4, 100.0), (1000, 50, 0, 12.5)]):
+        data = rng.standard_normal((m + K * (n - m) + 3, 3))
+        case = dict(kind="class-welch-long", cls="FDD", nxseg=n, noverlap=m, K=K, fs=fs, data_note="ctx.np_rng stream", head=data[:16].tolist())
+        ctx.count(dict(kind="class-welch-long", K=K, n=n, m=m, d=float(data[0, 0])))
+        try:
+            with warnings.catch_warnings():
+                warnings.simplefilter("ignore")
+                ss = SingleSetup(data.copy(), fs=fs)
+                alg = FDD(name="a", nxseg=n, method_SD="per", pov=m / n)
+                ss.add_algorithms(alg)
+                ss.run_by_name("a")
+        except Exception as ex:
+            ctx.note("class glue FDD (long record) not exercised: %s: %s" % (type(ex).__name__, str(ex)[:80]))
+            continue
+        Sr = np.asarray(alg.result.Sy)
+        W = welch_independent(data.T, data.T, fs, n, m)
+        if Sr.shape != W.shape or relerr(Sr[:, :, 2:], W[:, :, 2:]) > 1e-9:
+            ctx.fail("oracle", "FDD.result.Sy on a record of %d segments differs from Welch's average over all segments (lines >= 2) by %.3g"
+                     % (K, relerr(Sr[:, :, 2:], W[:, :, 2:]) if Sr.shape == W.shape else float("inf")), case, key="C13:glue:FDD:welch-long")
+
+
 def oracle_gain_delay(ctx):
     """channel 1 = g * channel 0 delayed by d samples: Sy[0][1]/Sy[0][0] = g exp(-2 pi i f d/fs)."""
     rng = ctx.np_rng
@@ -788,6 +857,7 @@ def run(ctx):
     oracle_grid_pairing_bilinear(ctx)
     oracle_integer(ctx)
     oracle_welch(ctx)
+    oracle_welch_long(ctx)
     oracle_gain_delay(ctx)
     oracle_sinusoid(ctx)
     oracle_classes(ctx)
